@@ -114,8 +114,30 @@ fn walk<T, N: ArrayLength>(name: &str, bad: &mut usize) {
     struct Holder<A> { pad: [u64; 3], arr: A, tail: u8 }
     let b: Box<core::mem::MaybeUninit<Holder<GenericArray<T, N>>>> = Box::new_zeroed();
     // only addresses and the length are inspected: the elements themselves are never read
+    let mut b = b;
+    let base = unsafe { &(*b.as_ptr()).arr } as *const GenericArray<T, N> as usize;
+    // every way of viewing the array as a slice starts at the array's address and has N elements
+    {
+        let am: &mut GenericArray<T, N> = unsafe { &mut (*b.as_mut_ptr()).arr };
+        let mut views: Vec<(&str, usize, usize)> = Vec::new();
+        { let v: &mut [T] = am.as_mut_slice(); views.push(("as_mut_slice", v.as_ptr() as usize, v.len())); }
+        { let v: &mut [T] = &mut am[..]; views.push(("DerefMut", v.as_ptr() as usize, v.len())); }
+        { let v: &mut [T] = core::convert::AsMut::<[T]>::as_mut(am); views.push(("AsMut", v.as_ptr() as usize, v.len())); }
+        { let v: &mut [T] = core::borrow::BorrowMut::<[T]>::borrow_mut(am); views.push(("BorrowMut", v.as_ptr() as usize, v.len())); }
+        { let v = (&mut *am).into_iter().into_slice(); views.push(("iter_mut", v.as_ptr() as usize, v.len())); }
+        let ar: &GenericArray<T, N> = am;
+        { let v: &[T] = &ar[..]; views.push(("Deref", v.as_ptr() as usize, v.len())); }
+        { let v: &[T] = core::convert::AsRef::<[T]>::as_ref(ar); views.push(("AsRef", v.as_ptr() as usize, v.len())); }
+        { let v: &[T] = core::borrow::Borrow::<[T]>::borrow(ar); views.push(("Borrow", v.as_ptr() as usize, v.len())); }
+        { let v = ar.into_iter().as_slice(); views.push(("iter", v.as_ptr() as usize, v.len())); }
+        for (what, p, l) in views {
+            if l != n || p != base {
+                *bad += 1; println!("FAIL walk;{name};N={n}: the {what} view is (addr +{}, len {l}), array is (+0, {n})", p.wrapping_sub(base));
+                return;
+            }
+        }
+    }
     let arr: &GenericArray<T, N> = unsafe { &(*b.as_ptr()).arr };
-    let base = arr as *const _ as usize;
     let s: &[T] = arr.as_slice();
     if s.len() != n || s.as_ptr() as usize != base {
         *bad += 1; println!("FAIL walk;{name};N={n}: slice view is (addr +{}, len {}), array is (+0, {n})", (s.as_ptr() as usize).wrapping_sub(base), s.len());
@@ -194,6 +216,9 @@ def run(part, tier):
     if tier == 'quick':
         walk_ns = list(range(0, 18)) + [31, 32, 33, 63, 64, 65, 100, 255, 256, 1024]
     walks = [(l[0], n, f'U{n}') for l in walk_l for n in walk_ns]
+    # arrays of zero-sized elements cost nothing at any length: lengths around and far beyond 2^32
+    huge = [(1 << 32) - 1, 1 << 32, (1 << 32) + 3, (1 << 40) + 1, 1 << 62]
+    walks += [(l[0], n, uint_type(n)) for l in walk_l if l[0] in ('T_unit', 'Z_align64', 'Z_u64_0', 'L1_0', 'L32_0', 'GA_u32_0') for n in huge]
     cdir = os.path.join(BASE, 'corpus')
     target = os.path.join(BASE, 'target', 'corpus01')
     os.makedirs(cdir, exist_ok=True)
